@@ -102,6 +102,7 @@ type loopInfo struct {
 	// discovered in pass 1
 	heapKeys  map[string]bool
 	allHeaps  bool
+	keep      []string // with allHeaps: components every unknown-effect call of the body preserves
 	ghosts    map[string]bool
 	allocates bool
 	spec      *LoopSpec
@@ -143,6 +144,8 @@ type Gen struct {
 	p1Alloc  map[*ssa.BasicBlock]bool
 	writeLog map[*ssa.BasicBlock]map[string]bool
 	writeAll map[*ssa.BasicBlock]bool
+	writeAllKeep map[*ssa.BasicBlock][]string // components every havoc-all event of the block preserves (intersection)
+	p1WriteAllKeep map[*ssa.BasicBlock][]string
 	ghostLog map[*ssa.BasicBlock]map[string]bool
 	allocLog map[*ssa.BasicBlock]bool
 	abstractions []abstraction
@@ -257,11 +260,29 @@ func (g *Gen) noteAlloc() {
 	}
 }
 
-func (g *Gen) noteWriteAll() {
+func (g *Gen) noteWriteAll(preserve ...string) {
 	for _, b := range g.logBlocks() {
+		if !g.writeAll[b] {
+			g.writeAllKeep[b] = append([]string{}, preserve...)
+		} else {
+			g.writeAllKeep[b] = intersectStrings(g.writeAllKeep[b], preserve)
+		}
 		g.writeAll[b] = true
 		g.allocLog[b] = true
 	}
+}
+
+func intersectStrings(a, b []string) []string {
+	out := []string{}
+	for _, x := range a {
+		for _, y := range b {
+			if x == y {
+				out = append(out, x)
+				break
+			}
+		}
+	}
+	return out
 }
 
 // oblige records a proof obligation `goal` at the current point and assumes it afterwards.
@@ -324,6 +345,7 @@ func (g *Gen) run() (err error) {
 	g.discovery = true
 	g.execAll()
 	g.p1Write, g.p1WriteAll, g.p1Ghost, g.p1Alloc = g.writeLog, g.writeAll, g.ghostLog, g.allocLog
+	g.p1WriteAllKeep = g.writeAllKeep
 	g.summariseLoops()
 	// pass 2: the real thing
 	g.discovery = false
@@ -343,6 +365,7 @@ func (g *Gen) reset() {
 	g.retCount = 0
 	g.writeLog = map[*ssa.BasicBlock]map[string]bool{}
 	g.writeAll = map[*ssa.BasicBlock]bool{}
+	g.writeAllKeep = map[*ssa.BasicBlock][]string{}
 	g.ghostLog = map[*ssa.BasicBlock]map[string]bool{}
 	g.allocLog = map[*ssa.BasicBlock]bool{}
 	g.calleeUse = map[*CalleeSpec]int{}
@@ -534,6 +557,11 @@ func (g *Gen) summariseLoops() {
 				li.heapKeys[k] = true
 			}
 			if g.p1WriteAll[bb] {
+				if !li.allHeaps {
+					li.keep = append([]string{}, g.p1WriteAllKeep[bb]...)
+				} else {
+					li.keep = intersectStrings(li.keep, g.p1WriteAllKeep[bb])
+				}
 				li.allHeaps = true
 			}
 			for k := range g.p1Ghost[bb] {
@@ -1249,7 +1277,15 @@ func (g *Gen) havocLoop(li *loopInfo, base *State) *State {
 		}
 	} else {
 		if li.allHeaps {
-			st.heap = map[string]string{}
+			kept := map[string]string{}
+			if len(li.keep) > 0 {
+				for k := range g.heapSorts {
+					if g.preservedKey(k, li.keep) && !li.heapKeys[k] {
+						kept[k] = g.heapTerm(st, k, g.heapSorts[k])
+					}
+				}
+			}
+			st.heap = kept
 			g.nfresh++
 			st.epoch = fmt.Sprintf("L%d_%d", li.ordinal, g.nfresh)
 		} else {
